@@ -197,14 +197,14 @@ func genSst(g *gen, n int, tier string, w *bufio.Writer) {
 // ---------- executor ----------
 
 type sstRun struct {
-	r     *runner
-	bit   *block.Iterator
-	dir   string
-	file  []byte
-	orig  []byte // the unaltered table as written
-	n     int
-	rd    *sstable.Reader
-	it    *sstable.Iterator
+	r    *runner
+	bit  *block.Iterator
+	dir  string
+	file []byte
+	orig []byte // the unaltered table as written
+	n    int
+	rd   *sstable.Reader
+	it   *sstable.Iterator
 }
 
 func b2s(b bool) string {
